@@ -81,6 +81,29 @@ func runCrashProperty(t *rapid.T, pc crashProgCfg) {
 			acts[k] = wrap(base[k])
 		}
 	}
+	// an unstable write followed at once by the COMMIT that must make it durable
+	acts["unstable_then_commit"] = func(t *rapid.T) {
+		files := x.M.LiveKind(nt.NF3REG)
+		if len(files) == 0 || !unstable || x.Budget < 60 {
+			t.Skip("no file, or unstable writes are off")
+		}
+		f := pick(t, files, "file")
+		off := g.Offset(t, f)
+		if off > 600*BlockSize {
+			off = f.Size
+		}
+		n := uint32(pick(t, []int{1, 100, 4096, 8192, 3*4096 + 5}, "len"))
+		cr.Step(func() error {
+			stepErr = x.Write(LiveRef(f), off, patternData(g.nextTag(), uint64(n)), n, nt.UNSTABLE)
+			return nil
+		})
+		if stepErr == nil {
+			cr.Step(func() error { stepErr = x.Commit(LiveRef(f), 0, 0); return nil })
+		}
+		if stepErr != nil {
+			failf(t, pc.Prop, detail(), "live run: %v", stepErr)
+		}
+	}
 	nrestart, nnoflush := 0, 0
 	acts["restart"] = func(t *rapid.T) {
 		if nrestart+nnoflush >= 3 {
